@@ -27,8 +27,8 @@ ASSUMPTIONS = [
     'chemistry\'s active/inactive indexing), validity of the mixture itself is C10',
     'the product rule is asserted for the transmission model (third return value = per-layer transmittance)',
 ]
-_Q = {'compose': 45, 'order': 16, 'abundance': 16, 'emission': 12, 'live': 20}
-_T = {'compose': 700, 'order': 250, 'abundance': 250, 'emission': 200, 'live': 300}
+_Q = {'compose': 45, 'order': 16, 'abundance': 16, 'emission': 12, 'live': 20, 'cia_pairs': 20}
+_T = {'compose': 700, 'order': 250, 'abundance': 250, 'emission': 200, 'live': 300, 'cia_pairs': 300}
 BUDGET = {
     'quick': [dict(name='boundscheck', env={'NUMBA_BOUNDSCHECK': '1'}, shards=4, cases=_Q)],
     'thorough': [dict(name='boundscheck', env={'NUMBA_BOUNDSCHECK': '1'}, shards=16, cases=_T)],
@@ -37,7 +37,7 @@ REQUIRED = dict(monitors=['sigma-is-sum-of-components', 'component-is-xsec-times
                           'model-is-product-of-contributions', 'contribution-is-product-of-components',
                           'order-independent', 'zero-abundance-changes-nothing', 'component-proportional-to-abundance',
                           'contribution-list-restored', 'store-contributions-equal-model-contrib'],
-                classes=['live:fault-before-evaluation', 'contrib:CIA', 'contrib:Rayleigh', 'contrib:SimpleClouds', 'contrib:FlatMie', 'contrib:LeeMie',
+                classes=['live:fault-before-evaluation', 'cia:he-zero', 'cia:trace-zero', 'cia:trace-zero-in-some-layers', 'contrib:CIA', 'contrib:Rayleigh', 'contrib:SimpleClouds', 'contrib:FlatMie', 'contrib:LeeMie',
                          'contrib:HydrogenIon', 'model:emission', 'early-exit-observed', 'species>=2', 'restricted-grid',
                          'live:starts-at-zero', 'live:write-from-zero', 'live:write-to-zero', 'live:write-rescale'])
 _rec = {'yields': {}, 'sigma': {}}
@@ -469,6 +469,46 @@ def wl_live(ctx, rng):
     ctx.sig('live', spec['nlayers'], spec['magnitude'], victim, tuple(steps), round(spec['planet_mass'], 6))
 
 
+def wl_cia_pairs(ctx, rng):
+    """Collision-induced absorption with several pairs in any order, partners at exactly zero abundance (everywhere, or
+    in some layers only), pairs with trace-gas partners: every yielded pair component is judged against
+    cross-section x x1 x x2 layer by layer, the summed opacity against the sum, and the transmittance by the oracle."""
+    spec = make_case(rng, hion=False, n_active=int(rng.integers(1, 3)))
+    if 'He' not in spec['fill_gases']:
+        spec['fill_gases'] = ['H2', 'He']
+        spec['fill_ratio'] = [float(10 ** rng.uniform(-3, 0))]
+    partners = [g['mol'] for g in spec['gases']]
+    pairs = ['H2-H2', 'H2-He'] + ['%s-%s' % (['H2', 'He'][rng.integers(0, 2)], m) for m in partners[:2]]
+    pairs = [pairs[i] for i in rng.permutation(len(pairs))][:int(rng.integers(2, len(pairs) + 1))]
+    how = ['he-zero', 'trace-zero', 'trace-zero-in-some-layers', 'none'][rng.integers(0, 4)]
+    if how == 'he-zero':
+        spec['fill_ratio'][spec['fill_gases'].index('He') - 1] = 0.0
+    elif how in ('trace-zero', 'trace-zero-in-some-layers') and partners:
+        v = partners[0]
+        if how == 'trace-zero':
+            spec['gases'] = [{'kind': 'constant', 'mol': v, 'mix': 0.0} if g['mol'] == v else g for g in spec['gases']]
+        else:
+            k = int(rng.integers(2, 6))
+            arr = [float(x) for x in 10 ** rng.uniform(-8, -3, k)]
+            arr[int(rng.integers(0, k))] = 0.0
+            if rng.random() < 0.5:
+                arr[0] = 0.0
+            spec['gases'] = [{'kind': 'array', 'mol': v, 'mix': arr} if g['mol'] == v else g for g in spec['gases']]
+    spec['contributions'] = [c for c in spec['contributions'] if (c if isinstance(c, str) else c['name']) != 'CIA']
+    cia = {'name': 'CIA', 'cia_pairs': pairs}
+    spec['contributions'].insert(int(rng.integers(0, len(spec['contributions']) + 1)), cia)
+    observe_case(ctx, spec, 'transmission')
+    ctx.observe('cia:pairs=%d' % len(pairs), 'cia:' + how)
+    ctx.feature(pairs=pairs, zero=how)
+    model, contribs, ops, cias = realise(spec)
+    snap = base.run_model(ctx, model)
+    if snap is None:
+        return
+    judge_components(ctx, model, contribs, ops, cias, spec, snap['wn'])
+    base.oracle(ctx, snap, spec)
+    ctx.sig('cia', tuple(pairs), how, spec['nlayers'], round(spec['planet_mass'], 6))
+
+
 def wl_emission(ctx, rng):
     """(a)(b)(e)(f) on the emission / direct-image models."""
     kind = ['emission', 'directimage'][rng.integers(0, 2)]
@@ -496,7 +536,7 @@ def wl_emission(ctx, rng):
             round(spec['planet_mass'], 6))
 
 
-WORKLOADS = {'compose': wl_compose, 'order': wl_order, 'abundance': wl_abundance, 'emission': wl_emission, 'live': wl_live}
+WORKLOADS = {'compose': wl_compose, 'order': wl_order, 'abundance': wl_abundance, 'emission': wl_emission, 'live': wl_live, 'cia_pairs': wl_cia_pairs}
 
 LEVEL_TEXT = ('Exploration by runtime monitoring: a generator tap copies every component a contribution yields at the moment '
               'it is yielded, taps on prepare/path_integral/contribute record the summed sigma, the per-layer '
